@@ -1,5 +1,6 @@
-(* Lemmas about model/TagsEval.v: the compiled closure has the reference meaning of the expression
-   whenever every LIKE pattern is well-formed; a malformed source is refused. *)
+(* Lemmas about model/TagsEval.v, for the code's variant of the builder (the error of the LIKE probe is
+   returned): the compiled closure has the reference meaning of the expression; a malformed source (incl. a
+   malformed LIKE pattern) is refused; a nil func is never produced. *)
 From LR Require Import lib.Base model.KV model.Tags model.TagsEval.
 
 Section Spec.
@@ -7,10 +8,10 @@ Section Spec.
   Variable pmatch : bytes -> bytes -> option bool.
 
   Notation build_ident := (build_ident upper lower).
-  Notation build_cond := (build_cond upper lower pmatch).
-  Notation build_xcond := (build_xcond upper lower pmatch).
-  Notation build_xconds := (build_xconds upper lower pmatch).
-  Notation build_ors := (build_ors upper lower pmatch).
+  Notation build_cond := (build_cond upper lower pmatch false).
+  Notation build_xcond := (build_xcond upper lower pmatch false).
+  Notation build_xconds := (build_xconds upper lower pmatch false).
+  Notation build_ors := (build_ors upper lower pmatch false).
   Notation ref_ident := (ref_ident upper lower).
   Notation ref_cond := (ref_cond upper lower pmatch).
   Notation ref_xcond := (ref_xcond upper lower pmatch).
@@ -18,6 +19,7 @@ Section Spec.
   Notation ident_wf := (ident_wf upper).
   Notation cond_wf := (cond_wf upper).
   Notation cond_like_ok := (cond_like_ok upper pmatch).
+  Notation cond_ok := (cond_ok upper pmatch).
 
   (* the result of a builder step is as the reference says: a closure computing [ref] when the piece is
      well-formed, an error otherwise; never a nil func *)
@@ -46,21 +48,25 @@ Section Spec.
     - reflexivity.
   Qed.
 
-  Lemma cond_good c cur : cond_like_ok c = true -> good (build_cond c cur) (cond_wf c) (ref_cond c).
+  Lemma cond_good c cur : good (build_cond c cur) (cond_ok c) (ref_cond c).
   Proof.
-    intros HL. unfold TagsEval.build_cond, TagsEval.cond_wf, TagsEval.ref_cond, TagsEval.known_op, TagsEval.cond_like_ok in *.
+    unfold TagsEval.build_cond, TagsEval.cond_ok, TagsEval.cond_wf, TagsEval.ref_cond, TagsEval.known_op, TagsEval.cond_like_ok.
     pose proof (ident_spec (c_ident c)) as IS.
     destruct (TagsEval.build_ident upper lower (c_ident c)) as [tvf|]; [|rewrite IS; reflexivity].
-    destruct IS as (W & E). rewrite W. cbn [andb existsb].
+    destruct IS as (W & E). rewrite W. generalize (upper (c_op c)). intros op.
+    (* the case split of the code, operator by operator; once the operator is known everything else computes *)
     repeat match goal with
-    | |- context [bytes_eqb (upper (c_op c)) ?b] =>
-        destruct (bytes_eqb (upper (c_op c)) b) eqn:?; cbn [orb];
-        [try (split; [reflexivity|intros m; rewrite E; reflexivity])|]
+    | |- context [if bytes_eqb op ?b then _ else _] =>
+        let EQ := fresh "EQ" in destruct (bytes_eqb op b) eqn:EQ;
+        [apply bytes_eqb_eq in EQ; subst op; cbn [andb orb existsb bytes_eqb byte_eqb Byte.eqb Byte.to_bits
+           OP_LT OP_GT OP_LE OP_GE OP_NE OP_EQ OP_LIKE OP_CONTAINS OP_PREFIX OP_SUFFIX Bool.eqb];
+         try (split; [reflexivity|intros m; rewrite E; reflexivity])|]
     end.
     - (* LIKE *)
-      destruct (pmatch (c_value c) PROBE); [|discriminate].
+      destruct (pmatch (c_value c) PROBE); [|reflexivity].
       split; [reflexivity|intros m; rewrite E; reflexivity].
-    - reflexivity.
+    - (* no known operator *)
+      cbn [andb orb existsb]. repeat match goal with H : bytes_eqb op _ = false |- _ => rewrite H; clear H end. reflexivity.
   Qed.
 
   Lemma build_xcond_expr neg ors cur :
@@ -73,14 +79,13 @@ Section Spec.
   Proof. reflexivity. Qed.
 
   Definition xgood (xc : xcond) : Prop :=
-    forall cur, xcond_all cond_like_ok xc = true -> good (build_xcond xc cur) (xcond_all cond_wf xc) (ref_xcond xc).
+    forall cur, good (build_xcond xc cur) (xcond_all cond_ok xc) (ref_xcond xc).
 
-  Lemma xconds_good cn : Forall xgood cn -> forall cur, forallb (xcond_all cond_like_ok) cn = true ->
-    good (build_xconds cn cur) (forallb (xcond_all cond_wf) cn) (fun m => forallb (fun x => ref_xcond x m) cn).
+  Lemma xconds_good cn : Forall xgood cn -> forall cur,
+    good (build_xconds cn cur) (forallb (xcond_all cond_ok) cn) (fun m => forallb (fun x => ref_xcond x m) cn).
   Proof.
-    induction 1 as [|x tl Hx Hall IH]; intros cur HL; [split; reflexivity|].
-    cbn [forallb] in HL. apply andb_true_iff in HL as [HLx HLt].
-    specialize (Hx cur HLx).
+    induction 1 as [|x tl Hx Hall IH]; intros cur; [split; reflexivity|].
+    specialize (Hx cur).
     destruct tl as [|y tl'].
     - cbn [TagsEval.build_xconds forallb]. unfold good in *. destruct (build_xcond x cur) as [[f|]|]; try assumption.
       + destruct Hx as (W & E). rewrite W. split; [reflexivity|]. intros m. rewrite E, andb_true_r. reflexivity.
@@ -91,7 +96,7 @@ Section Spec.
          | Some efd0 => match build_xconds (y :: tl') efd0 with None => None | Some efd1 => Some (Some (and_f efd0 efd1)) end
          end).
       unfold good in Hx. destruct (build_xcond x cur) as [[f|]|]; [|contradiction|].
-      + destruct Hx as (W & E). specialize (IH (Some f) HLt). unfold good in IH.
+      + destruct Hx as (W & E). specialize (IH (Some f)). unfold good in IH.
         destruct (build_xconds (y :: tl') (Some f)) as [[g|]|]; [|contradiction|].
         * destruct IH as (W2 & E2). unfold good. cbn [forallb] in *. rewrite W, W2. split; [reflexivity|].
           intros m. unfold and_f. cbn [call]. rewrite E. destruct (ref_xcond x m); [rewrite E2; reflexivity|reflexivity].
@@ -102,16 +107,15 @@ Section Spec.
   Definition ref_ors (l : list (list xcond)) (m : kvmap) : bool :=
     match l with [] => true | _ => existsb (forallb (fun x => ref_xcond x m)) l end.
 
-  Lemma ors_good l : Forall (Forall xgood) l -> forall cur, forallb (forallb (xcond_all cond_like_ok)) l = true ->
-    good (build_ors l cur) (forallb (forallb (xcond_all cond_wf)) l) (ref_ors l).
+  Lemma ors_good l : Forall (Forall xgood) l -> forall cur,
+    good (build_ors l cur) (forallb (forallb (xcond_all cond_ok)) l) (ref_ors l).
   Proof.
-    induction 1 as [|ands rest Ha Hall IH]; intros cur HL; [split; reflexivity|].
-    cbn [forallb] in HL. apply andb_true_iff in HL as [HLa HLr].
-    pose proof (xconds_good ands Ha cur HLa) as G0.
+    induction 1 as [|ands rest Ha Hall IH]; intros cur; [split; reflexivity|].
+    pose proof (xconds_good ands Ha cur) as G0.
     cbn [TagsEval.build_ors]. unfold good in G0. destruct (build_xconds ands cur) as [[f|]|]; [|contradiction|].
     - destruct G0 as (W & E). destruct rest as [|a2 rest'].
       + unfold good. cbn [forallb]. rewrite W. split; [reflexivity|]. intros m. rewrite E. cbn. rewrite orb_false_r. reflexivity.
-      + specialize (IH (Some f) HLr). unfold good in IH.
+      + specialize (IH (Some f)). unfold good in IH.
         destruct (build_ors (a2 :: rest') (Some f)) as [[g|]|]; [|contradiction|].
         * destruct IH as (W2 & E2). unfold good. cbn [forallb] in *. rewrite W, W2. split; [reflexivity|].
           intros m. unfold or_f. cbn [call]. rewrite E. unfold ref_ors in *. cbn [existsb] in *.
@@ -138,9 +142,9 @@ Section Spec.
   Proof.
     induction n as [|n IH]; intros xc Hs.
     - destruct xc as [neg [c|ors]]; cbn in Hs; lia.
-    - destruct xc as [neg [c|ors]]; intros cur HL.
+    - destruct xc as [neg [c|ors]]; intros cur.
       + rewrite build_xcond_cond. cbn [xcond_all TagsEval.ref_xcond] in *.
-        pose proof (cond_good c cur HL) as G. unfold good in *. destruct (build_cond c cur) as [[f|]|]; [|contradiction|exact G].
+        pose proof (cond_good c cur) as G. unfold good in *. destruct (build_cond c cur) as [[f|]|]; [|contradiction|exact G].
         destruct G as (W & E). destruct neg; [|split; assumption]. split; [exact W|].
         intros m. unfold not_f. cbn [call]. rewrite E. reflexivity.
       + rewrite build_xcond_expr. cbn [xcond_all] in *.
@@ -149,7 +153,7 @@ Section Spec.
           cbn [xsize] in Hs.
           pose proof (in_sum_le (fun ands => S (list_sum (map xsize ands))) ors ands Ia) as L1. cbn beta in L1.
           pose proof (in_sum_le xsize ands x Ix) as L2. lia. }
-        pose proof (ors_good ors F cur HL) as G. unfold good in *.
+        pose proof (ors_good ors F cur) as G. unfold good in *.
         destruct (build_ors ors cur) as [[f|]|]; [|contradiction|exact G].
         destruct G as (W & E).
         assert (R : forall m, ref_xcond (XC false (BExpr ors)) m = ref_ors ors m) by (intros m; destruct ors; reflexivity).
@@ -159,15 +163,15 @@ Section Spec.
         * split; [exact W|]. intros m. rewrite E, R. reflexivity.
   Qed.
 
-  (* FROM <expression>: with well-formed LIKE patterns the compiled closure is total and computes the
-     reference meaning; a malformed expression (unknown operator or function, wrong arity) is refused *)
-  Theorem source_expr_good e : expr_all cond_like_ok e = true ->
-    good (build_source upper lower pmatch (SExpr (Some e))) (expr_all cond_wf e) (ref_expr e).
+  (* FROM <expression>: the compiled closure is total and computes the reference meaning; a malformed
+     expression (unknown operator or function, wrong arity, a LIKE pattern path.Match rejects) is refused *)
+  Theorem source_expr_good e :
+    good (build_source upper lower pmatch (SExpr (Some e))) (expr_all cond_ok e) (ref_expr e).
   Proof.
-    intros HL. cbn [build_source].
+    change (build_source upper lower pmatch (SExpr (Some e))) with (build_ors e None).
     assert (F : Forall (Forall xgood) e).
     { rewrite Forall_forall. intros ands _. rewrite Forall_forall. intros x _. exact (xgood_all (xsize x) x (le_n _)). }
-    pose proof (ors_good e F None HL) as G. unfold good in *.
+    pose proof (ors_good e F None) as G. unfold good in *.
     destruct (build_ors e None) as [[f|]|]; [|contradiction|exact G].
     destruct G as (W & E). split; [exact W|]. intros m. rewrite E. destruct e; reflexivity.
   Qed.
